@@ -33,7 +33,8 @@ T = {
                               "promotion must consume the pending holes"),
     "promote_inserts": ("rawdb::layout::Layout::promote_pending_holes", "reach", r"rawdb::layout::Layout::insert_hole",
                         "promotion must turn pending holes into reusable holes"),
-    "punch": ("rawdb::hole_punch::HolePunch::punch", "must_reach", r"libc::.*::fallocate", "HolePunch::punch must call fallocate"),
+    # ("reach", not "must": a punch that splits a long range into several requests has a zero-iteration path)
+    "punch": ("rawdb::hole_punch::HolePunch::punch", "reach", r"libc::.*::fallocate", "HolePunch::punch must call fallocate"),
     "set_min_len_remap": ("rawdb::Database::set_min_len", "precedes", (r"std::fs::File::set_len", r"rawdb::mmap::create_mmap"),
                           "the mapping must be recreated after the file was grown"),
     "update_stored_len": ("vecdb::base::read_write::ReadWriteBaseVec::<I, T>::update_stored_len", "must_reach",
